@@ -131,6 +131,9 @@ func C15() int {
 		if li%7 == 3 {
 			lg.flags.R = sp("[x]")
 		}
+		if li%6 == 4 {
+			lg.flags.W = true // together with --redactNamespaces (the flag-off run keeps -w)
+		}
 		for k := 0; k < 10; k++ {
 			verb := verbs[(li+k)%len(verbs)]
 			car := gen.Carriers[(li+k/2)%3]
